@@ -80,6 +80,9 @@ def run(seq, prefilled=False):
     """prefilled: False (empty tables, feed()), True (thread map populated at construction, feed()), 'gen' (empty tables, every
     record stamped with the SAME tick, through feed_generator - the lazy entry point the facade uses)."""
     tp, pn = ({1: 91, 2: 92, 3: 93}, {91: 'q1', 92: 'q2', 93: 'q3'}) if prefilled is True else ({}, {})
+    if prefilled == 'one-process':
+        # the thread map puts all participating threads into ONE process - the one thread 1's exec pair names
+        tp, pn = {1: 11, 2: 11, 3: 11}, {11: 'shared'}
     p = TracesParser(E.codes(), tp, pn)
     per = {}
 
@@ -140,7 +143,7 @@ def solo(name, t, trunc, prefilled=False):
 def judge(combo, schedule, trunc, prefilled=False):
     """combo: tuple of program names for threads 1..n; schedule: tuple of thread indices."""
     progs = []
-    base_tp, base_pn = ({1: 91, 2: 92, 3: 93}, {91: 'q1', 92: 'q2', 93: 'q3'}) if prefilled is True else ({}, {})
+    base_tp, base_pn = ({1: 91, 2: 92, 3: 93}, {91: 'q1', 92: 'q2', 93: 'q3'}) if prefilled is True else ({1: 11, 2: 11, 3: 11}, {11: 'shared'}) if prefilled == 'one-process' else ({}, {})
     exp_per, exp_tp, exp_pn, exp_tn, exp_gs = {}, dict(base_tp), dict(base_pn), {}, {}
     contested = set()       # thread ids that two programs declare differently: the last declaration wins, by design
     for i, name in enumerate(combo):
@@ -187,7 +190,7 @@ class C05(Check):
             'lookup, NEWTHREAD data+string, EXEC data+string, nested syscalls, thread name + terminate, sampler window, global '
             'string + dlopen, 3-record lookup inside stat64, page fault with nested record, launch with nested map, EXEC pair with '
             'an unrelated syscall in between, NEWTHREAD pair announcing a sibling participant\'s thread id, two ENDs whose STARTs fell before the capture, a read whose records are byte-identical on every thread, a call interrupted by the lost-events marker of the kernel, a NEWTHREAD pair whose thread id is numerically the process id a sibling names), each parameterised by its own tid/pid/names, EVERY interleaving (merge preserving '
-            'each program\'s order) is fed to a fresh TracesParser - once built with empty tables, once with a thread map already populated at construction, and once through feed_generator with every record carrying the same timestamp; every pair also as a version-2 dump FILE through PyKdebugParser.traces with per-thread clocks 2^40 ticks apart (the tables of the facade object are the ones compared; the same file is also listed once per participating thread with the thread filter set). Plus one schedule family with a gap of 600..40 000 foreign records inside an open call, through feed_generator. quick: all pairs (full programs) + all triples of programs '
+            'each program\'s order) is fed to a fresh TracesParser - once built with empty tables, once with a thread map already populated at construction (pairs also with a thread map that puts all threads into the ONE process thread 1 execs into), and once through feed_generator with every record carrying the same timestamp; every pair also as a version-2 dump FILE through PyKdebugParser.traces with per-thread clocks 2^40 ticks apart (the tables of the facade object are the ones compared; the same file is also listed once per participating thread with the thread filter set). Plus one schedule family with a gap of 600..40 000 foreign records inside an open call, through feed_generator. quick: all pairs (full programs) + all triples of programs '
             'truncated to 2 events; thorough: all pairs (full programs) and all triples of programs truncated to 4 events (the full triples would be 146 million schedules). Oracle: per-thread list of (trace type, '
             'text, window) equals the solo run of that thread\'s program; learned tables equal the union of the solo runs. '
             'states = distinct program combinations; transitions = feeds; non-trivial = schedule with at least one context switch '
@@ -272,7 +275,7 @@ class C05(Check):
             for sched in interleavings(lens):
                 bad = judge(combo, sched, trunc) or judge(combo, sched, trunc, prefilled=True) or judge(combo, sched, trunc, prefilled='gen')
                 if not bad and desc[0] == 'pairs':
-                    bad = judge(combo, sched, trunc, prefilled='file')
+                    bad = judge(combo, sched, trunc, prefilled='file') or judge(combo, sched, trunc, prefilled='one-process')
                 switches = sum(1 for a, b in zip(sched, sched[1:]) if a != b)
                 acc.case(nontrivial=switches >= len(combo), transitions=len(sched), state=h64(combo), outcome=h64((combo, bad is None)))
                 if bad:
@@ -290,7 +293,8 @@ class C05(Check):
         bad = judge(tuple(case['programs']), tuple(case['schedule']), case['trunc']) or \
             judge(tuple(case['programs']), tuple(case['schedule']), case['trunc'], prefilled=True) or \
             judge(tuple(case['programs']), tuple(case['schedule']), case['trunc'], prefilled='gen') or \
-            (judge(tuple(case['programs']), tuple(case['schedule']), case['trunc'], prefilled='file') if len(case['programs']) == 2 else None)
+            ((judge(tuple(case['programs']), tuple(case['schedule']), case['trunc'], prefilled='file') or
+              judge(tuple(case['programs']), tuple(case['schedule']), case['trunc'], prefilled='one-process')) if len(case['programs']) == 2 else None)
         if not bad:
             return []
         sig = bad[0] + ':' + '+'.join(sorted(set(case['programs']))) if bad[0].startswith('interleaving-raised') else bad[0]
